@@ -1241,6 +1241,15 @@ def one_object_many_slots_rule(index, rep, rid, modules):
                               "%s builds `%s`: fromkeys() installs the one object `%s` as the value of EVERY key, so an element added under one key appears under all of them (every gene ends up in every species of a containing-tree mapping)" % (f.qualname, norm(x)[:60], norm(v)[:30]))
                 elif isinstance(x, ast.BinOp) and isinstance(x.op, ast.Mult):
                     for a, b in ((x.left, x.right), (x.right, x.left)):
+                        ctor = None
+                        if isinstance(a, ast.List) and len(a.elts) == 1 and isinstance(a.elts[0], ast.Call):
+                            cn_ = call_name(a.elts[0]) or ""
+                            if cn_[:1].isupper() and any(k.name == cn_ for k in index.classes.values()):
+                                ctor = cn_
+                        if ctor and not isinstance(b, ast.List):
+                            n += 1
+                            rep.check(False, rid, f.qualname, "one `%s` repeated in every slot" % norm(a.elts[0])[:30], fn_where(f, x), "",
+                                      "%s builds `%s`: the constructor is called ONCE and every slot of the list refers to that one %s object - what is meant to be n separate nodes / taxa / sequences is one object n times, so joining two of them makes a node its own sibling (a Kingman tree of n tips comes out with one tip, unifurcations and inconsistent parent pointers)" % (f.qualname, norm(x)[:60], ctor))
                         if isinstance(a, ast.List) and len(a.elts) == 1 and (_is_mutable_literal(a.elts[0]) or (isinstance(a.elts[0], ast.Call) and isinstance(a.elts[0].func, ast.Name) and a.elts[0].func.id in ("set", "list", "dict"))) and not isinstance(b, ast.List):
                             n += 1
                             rep.check(False, rid, f.qualname, "one `%s` repeated in every slot" % norm(a.elts[0])[:30], fn_where(f, x), "",
